@@ -43,7 +43,11 @@ def main():
         wt = f"/tmp/ev_{prop}_{kk}"
         sh(["git", "-C", "/repo", "worktree", "remove", "--force", wt])
         shutil.rmtree(wt, ignore_errors=True)
-        r = sh(["git", "-C", "/repo", "worktree", "add", "-q", "--detach", wt, "HEAD"])
+        for _ in range(8):  # several evaluations may run side by side; git serialises worktree edits with a lock file
+            r = sh(["git", "-C", "/repo", "worktree", "add", "-q", "--detach", wt, "HEAD"])
+            if r.returncode == 0 and os.path.isdir(wt):
+                break
+            time.sleep(2)
         meta = {"property": prop, "k": kk, "round": 1 + (kk - 1) // 3, "source": "independent sub-agent given only the property text and a scratch worktree"}
         try:
             env = dict(os.environ, PYTHONPATH=wt)
